@@ -200,6 +200,9 @@ func structPopulated(v any) (map[int32]bool, bool) {
 			out[n] = !fv.IsNil()
 		case reflect.Slice, reflect.Map:
 			out[n] = fv.Len() > 0
+			if fv.Kind() == reflect.Slice && fv.Type().Elem().Kind() == reflect.Uint8 && !strings.Contains(sf.Tag.Get("protobuf"), ",proto3") {
+				out[n] = !fv.IsNil() // a bytes field with explicit presence: set to empty is set
+			}
 		case reflect.Struct:
 			return nil, false // non-nullable message field: no notion of "unset" in the struct
 		case reflect.Float32, reflect.Float64:
